@@ -5,6 +5,13 @@ _CACHE_STREAM = {"name": "cache", "quick": 30000, "thorough": 400000, "thorough_
 _FRAG_STREAM = {"name": "frag", "quick": 25000, "thorough": 400000, "thorough_seeds": 3, "stateful": True, "seq_start": ("frag-new", "mb-new")}
 
 _KE_STREAM = {"name": "ke", "quick": 30000, "thorough": 400000, "thorough_seeds": 3, "stateful": True, "seq_start": "reset"}
+_KET_STREAM = {"name": "ket", "quick": 30000, "thorough": 600000, "thorough_seeds": 3, "stateful": True, "seq_start": "t-reset"}
+_KET_RULE = ("`ket`: two real channels with their REAL timers under the fake clock of testing/synctest (bin/corr26, go1.26; crypto/rand "
+             "seeded so that hash tie-breaks replay): ops send (done context), pend/unpend (a caller blocked in getOrInit), deliver any "
+             "message in flight (lost, duplicated, reordered), reliable bursts, advance the clock by 0..6000 ms (around every configured "
+             "interval), restart a side with a fresh channel; intervals keep-alive 300..10^6, backoff 50..250, rekey 700..10^5, reject "
+             "1500..10^5 ms; observations: every emission with its time, the three slots, both timers pending, waiting callers. Where the "
+             "two timers of a channel are due at the same instant the runtime orders them arbitrarily: the model follows (admissibility).")
 _KE_RULE = ("lock-step scenarios over real p2pke Sessions and Channels (timers detached, driven by the harness): 2-7 sessions "
             "(an honest pair, an unrelated pair, adversary sessions holding their own key) or 2-3 channels with acceptance "
             "predicates all/none/only:k; ops: deliver any message ever emitted to any party, retransmit, send, rekey, handshake "
@@ -58,7 +65,8 @@ PROPS = {
                                          "fingerprints are treated as injective (identity = key)"]},
     "C05": {"streams": [_KE_STREAM], "oracles": ["ke"], "rule": _KE_RULE, "assumptions": _KE_ASSUME,
             "oracle_n": {"quick": 3000, "thorough": 60000}},
-    "C07": {"streams": [_KE_STREAM], "oracles": ["ke"], "rule": _KE_RULE, "oracle_n": {"quick": 3000, "thorough": 60000},
+    "C07": {"streams": [_KE_STREAM, _KET_STREAM], "oracles": ["ke", "ket"], "rule": _KE_RULE + " " + _KET_RULE, "oracle_n": {"quick": 3000, "thorough": 60000},
+            "oracle_n_by": {"ket": {"quick": 250, "thorough": 12000}},
             "assumptions": _KE_ASSUME + ["convergence is proved for fresh channels and for a peer restart after establishment / after the "
                                          "first InitHello (three reliable round trips); arbitrary adversarial prefixes are covered by the "
                                          "invariants (slots, keys, keep-alive) and by the correspondence, not by a general convergence theorem",
